@@ -71,6 +71,16 @@ def _read_all(inst, fobj, encoding, bc, blocked, limit, style):
             if k != 'rec':
                 break
         return out
+    if style == 4:
+        # the caller catches the library's error for a bad MESSAGE and keeps reading the same reader (used only for
+        # files whose framing is intact): every later error carries its own record number and raw bytes
+        for _ in range(limit):
+            drv.yield_point()
+            e, k = next_event(inst, rd)
+            out.append(e)
+            if k == 'stop' or (k == 'err' and e['out'] != 'liberr'):
+                break
+        return out
 
     def loop(stop_after=None):
         n = 0
